@@ -64,6 +64,10 @@ def _worker(modname, spec, prop, tier, seed, timeout_ms):
     out = CaseOut()
     out.spec = spec
     t0 = time.time()
+    if os.environ.get('RSV_FAULT'):
+        import faulthandler
+        faulthandler.dump_traceback_later(int(os.environ['RSV_FAULT']), exit=True,
+                                          file=open(os.path.join(ROOT, '.scratch', 'fault-%d.txt' % os.getpid()), 'w'))
     try:
         mod = importlib.import_module(modname)
         ses = Session(prop, tier, seed, timeout_ms=timeout_ms)
